@@ -125,7 +125,7 @@ theorem arrayLayout_some {esz eal n total : Nat} (h : arrayLayout esz eal n = so
 
 /-- what a successful fill leaves behind -/
 def filled (t : TS) (s' : St) (esz p len : Nat) (g : Nat → Val) : TS :=
-  { st := s', wr := t.wr ++ (List.range len).map (fun i => (p + i * esz, g i)), calls := t.calls ++ List.range len }
+  { t with st := s', wr := t.wr ++ (List.range len).map (fun i => (p + i * esz, g i)), calls := t.calls ++ List.range len }
 
 theorem gen_alloc_slice_fill_with (E M esz eal len : Nat) (g : Nat → Val) (t : TS) :
     Gen.Fn.t_alloc_slice_fill_with E M esz eal len (pureClo g) t =
@@ -166,7 +166,7 @@ theorem gen_alloc_slice_fill_with_panic (E M esz eal len : Nat) (g : Nat → Val
       match arrayLayout esz eal len with
       | none => (t, .panic)
       | some total => afterAlloc t (Gen.Fn.alloc_layout E M ⟨total, eal⟩ t.st) fun s' p =>
-          ({ st := s', wr := t.wr ++ (List.range e).map (fun i => (p + i * esz, g i)), calls := t.calls ++ List.range (e + 1) }, .panic) := by
+          ({ t with st := s', wr := t.wr ++ (List.range e).map (fun i => (p + i * esz, g i)), calls := t.calls ++ List.range (e + 1) }, .panic) := by
   unfold Gen.Fn.t_alloc_slice_fill_with
   cases h : arrayLayout esz eal len with
   | none => rfl
@@ -182,7 +182,7 @@ theorem gen_try_alloc_slice_fill_with_panic (E M esz eal len : Nat) (g : Nat →
       match arrayLayout esz eal len with
       | none => (t, .err)
       | some total => afterAlloc t (Gen.Fn.try_alloc_layout E M ⟨total, eal⟩ t.st) fun s' p =>
-          ({ st := s', wr := t.wr ++ (List.range e).map (fun i => (p + i * esz, g i)), calls := t.calls ++ List.range (e + 1) }, .panic) := by
+          ({ t with st := s', wr := t.wr ++ (List.range e).map (fun i => (p + i * esz, g i)), calls := t.calls ++ List.range (e + 1) }, .panic) := by
   unfold Gen.Fn.t_try_alloc_slice_fill_with
   cases h : arrayLayout esz eal len with
   | none => rfl
@@ -244,7 +244,7 @@ theorem gen_try_alloc_with (E M esz eal : Nat) (f : Clo) (t : TS) :
 theorem gen_alloc (E M esz eal : Nat) (v : Val) (t : TS) :
     Gen.Fn.t_alloc E M esz eal v t =
       afterAlloc t (Gen.Fn.alloc_layout E M ⟨esz, eal⟩ t.st) fun s' p =>
-        ({ st := s', wr := t.wr ++ [(p, v)], calls := t.calls ++ [0] }, .ok p) := by
+        ({ t with st := s', wr := t.wr ++ [(p, v)], calls := t.calls ++ [0] }, .ok p) := by
   unfold Gen.Fn.t_alloc
   rw [gen_alloc_with]
   unfold afterAlloc
@@ -255,7 +255,7 @@ theorem gen_alloc (E M esz eal : Nat) (v : Val) (t : TS) :
 theorem gen_try_alloc (E M esz eal : Nat) (v : Val) (t : TS) :
     Gen.Fn.t_try_alloc E M esz eal v t =
       afterAlloc t (Gen.Fn.try_alloc_layout E M ⟨esz, eal⟩ t.st) fun s' p =>
-        ({ st := s', wr := t.wr ++ [(p, v)], calls := t.calls ++ [0] }, .ok p) := by
+        ({ t with st := s', wr := t.wr ++ [(p, v)], calls := t.calls ++ [0] }, .ok p) := by
   unfold Gen.Fn.t_try_alloc
   rw [gen_try_alloc_with]
   unfold afterAlloc
@@ -306,6 +306,172 @@ theorem gen_try_alloc_str (E M : Nat) (src : List Val) (t : TS) :
   obtain ⟨s', o⟩ := r
   cases o <;> rfl
 
+/-! ## `clone` / `default` / `iter` variants -/
+
+/-- the trailing `Ok(x)` / tail expression of a one-line wrapper -/
+theorem bind_ok_id {α : Type} (r : TS × Outcome α) : bind r (fun t x => (t, Outcome.ok x)) = r := by
+  obtain ⟨t, o⟩ := r
+  cases o <;> rfl
+
+/-- `alloc_slice_fill_clone(len, v)` is `alloc_slice_fill_with(len, |_| v.clone())` -/
+theorem gen_alloc_slice_fill_clone (E M esz eal len : Nat) (cl : Val → TS → TS × Outcome Val) (v : Val) (t : TS) :
+    Gen.Fn.t_alloc_slice_fill_clone E M esz eal cl len v t = Gen.Fn.t_alloc_slice_fill_with E M esz eal len (fun _ t => cl v t) t := by
+  unfold Gen.Fn.t_alloc_slice_fill_clone
+  simp only [bind_ok_id]
+theorem gen_try_alloc_slice_fill_clone (E M esz eal len : Nat) (cl : Val → TS → TS × Outcome Val) (v : Val) (t : TS) :
+    Gen.Fn.t_try_alloc_slice_fill_clone E M esz eal cl len v t = Gen.Fn.t_try_alloc_slice_fill_with E M esz eal len (fun _ t => cl v t) t := by
+  unfold Gen.Fn.t_try_alloc_slice_fill_clone
+  simp only [bind_ok_id]
+/-- `alloc_slice_fill_default(len)` is `alloc_slice_fill_with(len, |_| T::default())` -/
+theorem gen_alloc_slice_fill_default (E M esz eal len : Nat) (d : TS → TS × Outcome Val) (t : TS) :
+    Gen.Fn.t_alloc_slice_fill_default E M esz eal d len t = Gen.Fn.t_alloc_slice_fill_with E M esz eal len (fun _ t => d t) t := by
+  unfold Gen.Fn.t_alloc_slice_fill_default
+  simp only [bind_ok_id]
+theorem gen_try_alloc_slice_fill_default (E M esz eal len : Nat) (d : TS → TS × Outcome Val) (t : TS) :
+    Gen.Fn.t_try_alloc_slice_fill_default E M esz eal d len t = Gen.Fn.t_try_alloc_slice_fill_with E M esz eal len (fun _ t => d t) t := by
+  unfold Gen.Fn.t_try_alloc_slice_fill_default
+  simp only [bind_ok_id]
+
+/-- the closure `|_| iter.next().expect(..)` -/
+def iterClo (items : List Val) : Clo := fun _ t =>
+  bind (iter_next items t) fun t o => match o with | none => (t, .panic) | some x => (t, .ok x)
+
+/-- `alloc_slice_fill_iter(iter)` is `alloc_slice_fill_with(iter.len(), |_| iter.next().expect(..))` -/
+theorem gen_alloc_slice_fill_iter (E M esz eal : Nat) (items : List Val) (claimed : Nat) (t : TS) :
+    Gen.Fn.t_alloc_slice_fill_iter E M esz eal items claimed t = Gen.Fn.t_alloc_slice_fill_with E M esz eal claimed (iterClo items) t := by
+  unfold Gen.Fn.t_alloc_slice_fill_iter
+  simp only [bind_ok_id]
+  rfl
+theorem gen_try_alloc_slice_fill_iter (E M esz eal : Nat) (items : List Val) (claimed : Nat) (t : TS) :
+    Gen.Fn.t_try_alloc_slice_fill_iter E M esz eal items claimed t = Gen.Fn.t_try_alloc_slice_fill_with E M esz eal claimed (iterClo items) t := by
+  unfold Gen.Fn.t_try_alloc_slice_fill_iter
+  simp only [bind_ok_id]
+  rfl
+
+/-- the fill loop over an iterator that has enough items: element `i` is the `i`-th item, the iterator is advanced once per element -/
+theorem fill_loop_iter (E M esz eal len : Nat) (items : List Val) (lay : Layout) (dst : Nat) :
+    ∀ (n i0 : Nat) (t : TS), t.iterPos = i0 → i0 + n ≤ items.length →
+    Gen.Fn.t_alloc_slice_fill_with.loop E M esz eal len (iterClo items) lay dst n i0 t =
+      ({ t with wr := t.wr ++ (List.range n).map (fun k => (dst + (i0 + k) * esz, items.getD (i0 + k) 0)),
+                calls := t.calls ++ (List.range n).map (fun k => i0 + k), iterPos := i0 + n }, .ok ()) := by
+  intro n
+  induction n with
+  | zero => intro i0 t hp _; subst hp; simp [Gen.Fn.t_alloc_slice_fill_with.loop]
+  | succ n ih =>
+    intro i0 t hp hle
+    unfold Gen.Fn.t_alloc_slice_fill_with.loop
+    have hlt : i0 < items.length := by omega
+    have hget : items[i0]? = some (items.getD i0 0) := by
+      rw [List.getD_eq_getElem?_getD, List.getElem?_eq_getElem hlt]; rfl
+    simp only [call, iterClo, iter_next, bind, hp, hget, write]
+    rw [ih (i0 + 1) _ rfl (by omega)]
+    have h1 := range_shift n i0 (fun j => (dst + j * esz, items.getD j 0))
+    have h2 := range_shift' n i0
+    simp only [List.append_assoc, List.singleton_append, h1, h2]
+    congr 2
+    omega
+
+/-- an iterator with too few items: the closure panics at the first missing index, after the items that exist were written -/
+theorem fill_loop_iter_short (E M esz eal len : Nat) (items : List Val) (lay : Layout) (dst : Nat) :
+    ∀ (n i0 : Nat) (t : TS), t.iterPos = i0 → i0 ≤ items.length → items.length < i0 + n →
+    Gen.Fn.t_alloc_slice_fill_with.loop E M esz eal len (iterClo items) lay dst n i0 t =
+      ({ t with wr := t.wr ++ (List.range (items.length - i0)).map (fun k => (dst + (i0 + k) * esz, items.getD (i0 + k) 0)),
+                calls := t.calls ++ (List.range (items.length - i0 + 1)).map (fun k => i0 + k), iterPos := items.length + 1 }, .panic) := by
+  intro n
+  induction n with
+  | zero => intro i0 t _ h1 h2; omega
+  | succ n ih =>
+    intro i0 t hp h1 h2
+    unfold Gen.Fn.t_alloc_slice_fill_with.loop
+    by_cases he : i0 = items.length
+    · have hget : items[i0]? = none := by rw [he]; exact List.getElem?_eq_none (Nat.le_refl _)
+      simp only [call, iterClo, iter_next, bind, hp, hget]
+      subst he
+      simp
+    · have hlt : i0 < items.length := by omega
+      have hget : items[i0]? = some (items.getD i0 0) := by
+        rw [List.getD_eq_getElem?_getD, List.getElem?_eq_getElem hlt]; rfl
+      simp only [call, iterClo, iter_next, bind, hp, hget, write]
+      rw [ih (i0 + 1) _ rfl (by omega) (by omega)]
+      have e1 : items.length - i0 = (items.length - (i0 + 1)) + 1 := by omega
+      have h1' := range_shift (items.length - (i0 + 1)) i0 (fun j => (dst + j * esz, items.getD j 0))
+      have h2' := range_shift' (items.length - (i0 + 1) + 1) i0
+      rw [e1]
+      simp only [List.append_assoc, List.singleton_append, h1', h2']
+
+/-- C02 for `alloc_slice_fill_iter`: an iterator that is as long as it says (a fresh one: nothing handed out yet) fills the slice
+with its items in order -/
+theorem gen_alloc_slice_fill_iter_exact (E M esz eal : Nat) (items : List Val) (t : TS) (hp : t.iterPos = 0) :
+    Gen.Fn.t_alloc_slice_fill_iter E M esz eal items items.length t =
+      match arrayLayout esz eal items.length with
+      | none => (t, .panic)
+      | some total => afterAlloc t (Gen.Fn.alloc_layout E M ⟨total, eal⟩ t.st) fun s' p =>
+          ({ t with st := s', wr := t.wr ++ (List.range items.length).map (fun i => (p + i * esz, items.getD i 0)),
+                    calls := t.calls ++ List.range items.length, iterPos := items.length }, .ok (p, items.length)) := by
+  rw [gen_alloc_slice_fill_iter]
+  unfold Gen.Fn.t_alloc_slice_fill_with
+  cases h : arrayLayout esz eal items.length with
+  | none => rfl
+  | some total =>
+    have ht := arrayLayout_some h
+    simp only [bind_liftS]
+    congr 1
+    funext s' p
+    rw [fill_loop_iter E M esz eal _ items _ p items.length 0 { t with st := s' } hp (by omega)]
+    simp [bind, ht]
+
+/-- `alloc_slice_clone(src)` with a `Clone` that only computes: element `i` is the clone of `src[i]`, cloned in index order -/
+theorem slice_clone_loop (E M esz eal : Nat) (h : Val → Val) (src0 : List Val) (lay : Layout) (dst : Nat) :
+    ∀ (xs : List Val) (i0 : Nat) (t : TS),
+    Gen.Fn.t_alloc_slice_clone.loop E M esz eal (fun v t => (t, .ok (h v))) src0 lay dst xs i0 t =
+      ({ t with wr := t.wr ++ (List.range xs.length).map (fun k => (dst + (i0 + k) * esz, h (xs.getD k 0))) }, .ok ()) := by
+  intro xs
+  induction xs with
+  | nil => intro i0 t; simp [Gen.Fn.t_alloc_slice_clone.loop]
+  | cons x xs ih =>
+    intro i0 t
+    unfold Gen.Fn.t_alloc_slice_clone.loop
+    simp only [bind, write, ih, List.length_cons]
+    rw [List.range_succ_eq_map]
+    simp only [List.map_cons, List.map_map, List.append_assoc, List.singleton_append, Nat.add_zero, List.getD_cons_zero]
+    congr 4
+    apply List.map_congr_left
+    intro k _
+    simp only [Function.comp, List.getD_cons_succ]
+    have : i0 + 1 + k = i0 + k.succ := by omega
+    rw [this]
+
+theorem gen_alloc_slice_clone (E M esz eal : Nat) (h : Val → Val) (src : List Val) (t : TS) :
+    Gen.Fn.t_alloc_slice_clone E M esz eal (fun v t => (t, .ok (h v))) src t =
+      afterAlloc t (Gen.Fn.alloc_layout E M ⟨esz * src.length, eal⟩ t.st) fun s' p =>
+        ({ t with st := s', wr := t.wr ++ (List.range src.length).map fun i => (p + i * esz, h (src.getD i 0)) }, .ok (p, src.length)) := by
+  unfold Gen.Fn.t_alloc_slice_clone
+  simp only [bind_liftS]
+  congr 1
+  funext s' p
+  simp [slice_clone_loop, bind]
+
+theorem try_slice_clone_loop_eq (E M esz eal : Nat) (cl : Val → TS → TS × Outcome Val) (src0 : List Val) (lay : Layout) (dst : Nat) :
+    ∀ (xs : List Val) (i0 : Nat) (t : TS),
+    Gen.Fn.t_try_alloc_slice_clone.loop E M esz eal cl src0 lay dst xs i0 t = Gen.Fn.t_alloc_slice_clone.loop E M esz eal cl src0 lay dst xs i0 t := by
+  intro xs
+  induction xs with
+  | nil => intro i0 t; rfl
+  | cons x xs ih =>
+    intro i0 t
+    unfold Gen.Fn.t_try_alloc_slice_clone.loop Gen.Fn.t_alloc_slice_clone.loop
+    simp only [ih]
+
+theorem gen_try_alloc_slice_clone (E M esz eal : Nat) (h : Val → Val) (src : List Val) (t : TS) :
+    Gen.Fn.t_try_alloc_slice_clone E M esz eal (fun v t => (t, .ok (h v))) src t =
+      afterAlloc t (Gen.Fn.try_alloc_layout E M ⟨esz * src.length, eal⟩ t.st) fun s' p =>
+        ({ t with st := s', wr := t.wr ++ (List.range src.length).map fun i => (p + i * esz, h (src.getD i 0)) }, .ok (p, src.length)) := by
+  unfold Gen.Fn.t_try_alloc_slice_clone
+  simp only [bind_liftS]
+  congr 1
+  funext s' p
+  simp [try_slice_clone_loop_eq, slice_clone_loop, bind]
+
 /-- non-vacuity: a failed allocation leaves both logs untouched (`afterAlloc` on a failure) -/
 example (t : TS) (s' : St) (k : St → Nat → TS × Outcome Nat) :
     (afterAlloc t (s', (Outcome.err : Outcome Nat)) k).1.wr = t.wr ∧ (afterAlloc t (s', (Outcome.err : Outcome Nat)) k).1.calls = t.calls :=
@@ -324,6 +490,14 @@ example (t : TS) (s' : St) (k : St → Nat → TS × Outcome Nat) :
 #print axioms gen_alloc_slice_copy
 #print axioms gen_try_alloc_slice_copy
 #print axioms gen_alloc_str
+#print axioms gen_alloc_slice_fill_clone
+#print axioms gen_alloc_slice_fill_default
+#print axioms gen_alloc_slice_fill_iter
+#print axioms gen_try_alloc_slice_fill_iter
+#print axioms gen_alloc_slice_fill_iter_exact
+#print axioms fill_loop_iter_short
+#print axioms gen_alloc_slice_clone
+#print axioms gen_try_alloc_slice_clone
 #print axioms gen_try_alloc_str
 
 end Bump.RsT
